@@ -7,7 +7,7 @@ s = open(p).read()
 if '_LEAK_GROUPS' not in s:
     m = re.search(r"SRC_ORDER = \[.*?\]\n", s, re.S)
     s = s[:m.end()] + ("# source-derived leakage model of C01 (tools/rs2v_leak.py): Leak<G>.v is generated next to Gen<G>.v, Leak<G>P.v is hand-written\n"
-        "_LEAK_GROUPS = ['Prim', 'Div', 'Uint', 'Mod', 'Shift', 'Mul', 'Int', 'DivLimb', 'Monty', 'Hex', 'Bits', 'DivCt', 'Sqrt', 'Amm', 'MulMod', 'IntDiv']\n"
+        "_LEAK_GROUPS = ['Prim', 'Div', 'Uint', 'Mod', 'Shift', 'Mul', 'Int', 'DivLimb', 'Monty', 'Hex', 'Bits', 'DivCt', 'Sqrt', 'Amm', 'MulMod', 'IntDiv', 'Cmp', 'IntCmp', 'Conv', 'Wrap', 'SafeGcd']\n"
         "_LEAK = ['LeakIterP'] + [x for g in _LEAK_GROUPS for x in ('Leak' + g, 'Leak' + g + 'P')]\n"
         "SRC_ORDER += _LEAK\n") + s[m.end():]
     m = re.search(r"SRC_NEEDS = \{.*?\}\n", s, re.S)
